@@ -8,12 +8,22 @@
 // <searchers> = comma separated list (possibly empty) of P:<hex pattern>:<hex blank> or
 // A:<hex anagram>:<hex blank> ("-" = empty); each token is a word in hex ("-" = the empty word).
 //
+// A kind letter may carry a modifier saying which object carries the description on the Go side
+// (the model side ignores it): w a user-defined type delegating to the library searcher and
+// recording how Search drives it | n the same, running a nested Search on the same Dawg from
+// inside its Step callback | u an independent user-defined implementation of the same rule |
+// x the library searcher after a manual walk (allowed Steps, then as many Backsteps).
+// X:-:<hex k> is not a description: before the observed runs, one Search with fresh searchers
+// plus a user-defined searcher that panics in its k-th AllowStep call is run and recovered.
+//
 // <provenance> (optional, default "n--") says how the Dawg object that is searched is obtained
 // from the word list; the model side ignores it (the expected answer is the model's search on the
 // Dawg of the word list, whatever way the API was used to get a Dawg holding these words):
 //   <src><via><tgt>[:<hex>.<hex>...]
 //   src  n dawg.New | z zero-value Builder, Add..., Finish | i Builder after Initialise |
-//        r a Builder that first built the other word list, then Initialise, then this one
+//        r a Builder that first built the other word list, then Initialise, then this one |
+//        t,T,m,M GobDecode of a stream written by another producer (t the unmerged trie, m a
+//        partly merged automaton; capital: sparse large ids instead of small ones)
 //   via  - search the source object itself | g GobEncode + GobDecode | e through encoding/gob |
 //        2 two generations (encode, decode into a fresh value, encode that, decode)
 //   tgt  the value decoded into:  f new(Dawg) | n,z,i a Dawg that held the other word list (built
@@ -37,9 +47,10 @@ import (
 )
 
 type spec struct {
-	kind  byte // 'P' or 'A'
+	kind  byte // 'P' or 'A' ('X': see the package comment)
 	body  []byte
 	blank byte
+	mod   byte // 0, 'w', 'n', 'u', 'x'
 }
 
 func hexWord(w []byte) string {
@@ -61,7 +72,11 @@ func unhex(s string) []byte {
 }
 
 func (s spec) String() string {
-	return fmt.Sprintf("%c:%s:%02x", s.kind, hexWord(s.body), s.blank)
+	k := string(s.kind)
+	if s.mod != 0 {
+		k += string(s.mod)
+	}
+	return fmt.Sprintf("%s:%s:%02x", k, hexWord(s.body), s.blank)
 }
 
 // prov: how the searched Dawg object is obtained (see the package comment)
@@ -99,7 +114,8 @@ func caseLine(pv prov, specs []spec, words [][]byte) string {
 	return pv.String() + strings.Join(ss, ",") + ";" + strings.Join(ws, " ")
 }
 
-func parseCase(line string) (prov, []spec, [][]byte) {
+// parseCase returns the provenance, the descriptions, the words and k of an X entry (0 = none).
+func parseCase(line string) (prov, []spec, [][]byte, int) {
 	i := strings.LastIndex(line, ";")
 	head := line[:i]
 	pv := plain
@@ -126,20 +142,33 @@ func parseCase(line string) (prov, []spec, [][]byte) {
 			continue
 		}
 		f := strings.Split(t, ":")
-		if len(f) != 3 || len(f[0]) != 1 {
+		if len(f) != 3 || len(f[0]) < 1 || len(f[0]) > 2 {
 			panic("bad searcher " + t)
 		}
 		bl := unhex(f[2])
 		if len(bl) != 1 {
 			panic("bad blank " + t)
 		}
-		specs = append(specs, spec{kind: f[0][0], body: unhex(f[1]), blank: bl[0]})
+		sp := spec{kind: f[0][0], body: unhex(f[1]), blank: bl[0]}
+		if len(f[0]) == 2 {
+			sp.mod = f[0][1]
+		}
+		specs = append(specs, sp)
 	}
 	var words [][]byte
 	for _, t := range strings.Fields(line[i+1:]) {
 		words = append(words, unhex(t))
 	}
-	return pv, specs, words
+	bombAt := 0
+	kept := specs[:0]
+	for _, sp := range specs {
+		if sp.kind == 'X' {
+			bombAt = int(sp.blank)
+		} else {
+			kept = append(kept, sp)
+		}
+	}
+	return pv, kept, words, bombAt
 }
 
 // ---------------------------------------------------------------- independent oracle
@@ -195,9 +224,18 @@ type live struct {
 	sp spec
 	p  *dawg.PatternSearcher
 	a  *dawg.AnagramSearcher
+	up *myPattern
+	ua *myAnagram
+	wr *wrapS
 }
 
 func (l live) proj() string {
+	if l.up != nil {
+		return fmt.Sprintf("p%d", l.up.idx)
+	}
+	if l.ua != nil {
+		return l.ua.proj()
+	}
 	if l.p != nil {
 		return fmt.Sprintf("p%d", l.p.VerifIndex())
 	}
@@ -218,8 +256,11 @@ func (l live) proj() string {
 }
 
 func (l live) strict() string {
-	if l.p != nil {
+	if l.p != nil || l.up != nil {
 		return "p"
+	}
+	if l.sp.mod == 'u' || l.sp.mod == 'x' {
+		return "-" // no library object / entries rearranged by the manual walk
 	}
 	letters, counts, _, target, _ := l.a.VerifState()
 	if target > 12 {
@@ -324,10 +365,39 @@ func wellFormed(dump []dawg.VerifNode) string {
 
 // ---------------------------------------------------------------- obtaining the Dawg
 
+// scribble overwrites caller-owned bytes after the library has been given them: nothing the
+// library holds may depend on them any more
+func scribble(ws ...[]byte) {
+	for k, w := range ws {
+		for i := range w {
+			if k%2 == 0 {
+				w[i] = 0xff
+			} else {
+				w[i] = 0x00
+			}
+		}
+	}
+}
+
+func copies(ws [][]byte) [][]byte {
+	out := make([][]byte, len(ws))
+	for i, w := range ws {
+		out[i] = append([]byte{}, w...)
+	}
+	return out
+}
+
 func addAll(b *dawg.Builder, ws [][]byte) (*dawg.Dawg, error) {
-	for _, w := range ws {
-		if err := b.Add(append([]byte{}, w...)); err != nil {
+	cw := copies(ws)
+	for k, w := range cw {
+		if err := b.Add(w); err != nil {
 			return nil, err
+		}
+		// the caller's slice is the caller's again as soon as Add has returned
+		if k%2 == 0 {
+			scribble(w)
+		} else {
+			scribble(nil, w)
 		}
 	}
 	return b.Finish()
@@ -343,7 +413,27 @@ func build(how byte, ws [][]byte) (*dawg.Dawg, error) {
 		b.Initialise()
 		return addAll(b, ws)
 	case 'n':
-		return dawg.New(ws)
+		cw := copies(ws)
+		d, err := dawg.New(cw)
+		scribble(cw...)
+		return d, err
+	case 't', 'T', 'm', 'M': // a stream of another producer
+		salt := uint64(len(ws)) * 1000003
+		for _, w := range ws {
+			salt = salt*31 + uint64(len(w))
+		}
+		mode, ids := 0, int(salt%2)
+		if how == 'm' || how == 'M' {
+			mode = 1
+		}
+		if how == 'T' || how == 'M' {
+			ids = 2
+		}
+		enc := foreignStream(ws, mode, ids, salt)
+		d := new(dawg.Dawg)
+		err := d.GobDecode(enc)
+		scribble(enc)
+		return d, err
 	}
 	panic("bad provenance: builder " + string(how))
 }
@@ -355,7 +445,9 @@ func transport(via byte, src, tgt *dawg.Dawg) error {
 		if err != nil {
 			return err
 		}
-		return tgt.GobDecode(enc)
+		err = tgt.GobDecode(enc)
+		scribble(enc)
+		return err
 	case 'e':
 		var buf bytes.Buffer
 		if err := gob.NewEncoder(&buf).Encode(src); err != nil {
@@ -371,31 +463,170 @@ func transport(via byte, src, tgt *dawg.Dawg) error {
 		if err := mid.GobDecode(enc); err != nil {
 			return err
 		}
+		scribble(enc)
 		enc2, err := mid.GobEncode()
 		if err != nil {
 			return err
 		}
-		return tgt.GobDecode(enc2)
+		err = tgt.GobDecode(enc2)
+		scribble(enc2)
+		return err
 	}
 	panic("bad provenance: transport " + string(via))
 }
 
-func newSearchers(specs []spec) ([]live, []dawg.Searcher) {
-	ls := make([]live, len(specs))
-	srch := make([]dawg.Searcher, len(specs))
-	for i, sp := range specs {
-		ls[i].sp = sp
-		// the constructors keep the slices they are given: hand each its own copy
-		body := append([]byte{}, sp.body...)
-		if sp.kind == 'P' {
-			ls[i].p = dawg.NewPatternSearcher(body, sp.blank)
-			srch[i] = ls[i].p
-		} else {
-			ls[i].a = dawg.NewAnagramSearcher(body, sp.blank)
-			srch[i] = ls[i].a
+// language lists the words of the dumped automaton in link order.
+func language(dump []dawg.VerifNode, limit int) [][]byte {
+	var out [][]byte
+	var rec func(i int, w []byte)
+	rec = func(i int, w []byte) {
+		if len(out) > limit {
+			return
+		}
+		if dump[i].Final {
+			out = append(out, append([]byte{}, w...))
+		}
+		for j, k := range dump[i].KidIdx {
+			rec(k, append(w, dump[i].Labels[j]))
 		}
 	}
+	rec(0, nil)
+	return out
+}
+
+// a result held by the caller while further calls are made
+type held struct {
+	what string
+	w    [][]byte
+	i    []int
+	str  string
+	dead bool // the caller has scribbled over it
+}
+
+// env: the Dawg under test with its words, the results held so far, the violations found inside
+// callbacks
+type env struct {
+	d     *dawg.Dawg
+	words [][]byte
+	held  []*held
+	viol  []hx.OracleViolation
+	nests int
+}
+
+func (e *env) hold(what string, w [][]byte, i []int) string {
+	h := &held{what: what, w: w, i: i, str: solnString(w, i)}
+	e.held = append(e.held, h)
+	return h.str
+}
+
+// every result still held reads as it did when it was returned
+func (e *env) revalidate(when string) {
+	for _, h := range e.held {
+		if h.dead {
+			continue
+		}
+		if now := solnString(h.w, h.i); now != h.str {
+			e.viol = append(e.viol, hx.Fail("C13:result-aliased", "the lists returned by %s changed by %s: %s, now %s", h.what, when, h.str, now))
+			h.str = now
+		}
+	}
+}
+
+// blankQuery: one Search on e.d with a fresh all-blank pattern of length l (every word of that
+// length, with its rank), result held and compared with the brute-force filter
+func (e *env) blankQuery(what string, l int) {
+	sp := []spec{{kind: 'P', body: make([]byte, l), blank: 0}}
+	_, srch := newSearchers(sp, nil)
+	w, i := e.d.Search(srch...)
+	got := e.hold(what, w, i)
+	if want, _ := bruteForce(sp, e.words); got != want {
+		e.viol = append(e.viol, hx.Fail("C13:query-sequence", "%s (every word of length %d): Search returned %s, the matching words with ranks are %s", what, l, got, want))
+	}
+}
+
+func (e *env) nested() {
+	maxW := 0
+	for _, w := range e.words {
+		if len(w) > maxW {
+			maxW = len(w)
+		}
+	}
+	e.nests++
+	e.blankQuery("a Search started inside a Step callback of another Search", (maxW+e.nests)%(maxW+1))
+}
+
+func newSearchers(specs []spec, e *env) ([]live, []dawg.Searcher) {
+	ls := make([]live, len(specs))
+	srch := make([]dawg.Searcher, len(specs))
+	shared := map[string][]byte{}
+	for i, sp := range specs {
+		ls[i].sp = sp
+		// the constructors keep the slices they are given: the caller does not write to them
+		// any more; searchers with the same body are handed the very same slice (they only read)
+		body, ok := shared[string(sp.body)]
+		if !ok {
+			body = append([]byte{}, sp.body...)
+			shared[string(sp.body)] = body
+		}
+		var in dawg.Searcher
+		switch {
+		case sp.mod == 'u' && sp.kind == 'P':
+			ls[i].up = &myPattern{pat: body, blank: sp.blank}
+			in = ls[i].up
+		case sp.mod == 'u':
+			ls[i].ua = newMyAnagram(body, sp.blank)
+			in = ls[i].ua
+		case sp.kind == 'P':
+			ls[i].p = dawg.NewPatternSearcher(body, sp.blank)
+			in = ls[i].p
+		default:
+			ls[i].a = dawg.NewAnagramSearcher(body, sp.blank)
+			in = ls[i].a
+		}
+		switch sp.mod {
+		case 'w', 'n':
+			ls[i].wr = newWrap(in)
+			if sp.mod == 'n' && e != nil {
+				ls[i].wr.nestEvery = 1 + len(sp.body)%3
+				ls[i].wr.nestLeft = 3
+				ls[i].wr.nest = e.nested
+			}
+			in = ls[i].wr
+		case 'x': // a manual walk: allowed Steps along the body and a stored word, then back
+			walk := append([]byte{}, sp.body...)
+			if e != nil && len(e.words) > 0 {
+				walk = append(walk, e.words[len(e.words)/2]...)
+			}
+			n := 0
+			for _, b := range walk {
+				if in.AllowStep(b) {
+					in.Step(b)
+					n++
+				}
+			}
+			in.AllowWord()
+			for ; n > 0; n-- {
+				in.Backstep()
+			}
+		}
+		srch[i] = in
+	}
 	return ls, srch
+}
+
+// protocol of the recording wrappers after a run that returned n words
+func settle(res *hx.Result, ls []live, run string, n int) {
+	for k, l := range ls {
+		if l.wr == nil {
+			continue
+		}
+		if l.sp.mod == 'n' {
+			l.wr.nestLeft = 3
+		}
+		if msg := l.wr.settle(n); msg != "" {
+			res.Viol = append(res.Viol, hx.Fail("C13:searcher-protocol", "%s, user-defined searcher %d (%s): %s", run, k, l.sp.String(), msg))
+		}
+	}
 }
 
 // brute-force oracle on a word list
@@ -421,12 +652,15 @@ func bruteForce(specs []spec, words [][]byte) (string, int) {
 // side object (the Dawg of the other word list, or the source after it was encoded): one search
 // with fresh searcher objects against the brute-force filter
 func sideSearch(res *hx.Result, key, what string, d *dawg.Dawg, specs []spec, words [][]byte) {
-	_, srch := newSearchers(specs)
+	e := &env{d: d, words: words}
+	ls, srch := newSearchers(specs, e)
 	w, i := d.Search(srch...)
 	got := solnString(w, i)
 	if want, _ := bruteForce(specs, words); got != want {
 		res.Viol = append(res.Viol, hx.Fail(key, "%s: Search returned %s, the matching words with ranks are %s", what, got, want))
 	}
+	settle(res, ls, what, len(w))
+	res.Viol = append(res.Viol, e.viol...)
 }
 
 // obtain builds the Dawg object to be searched in the way pv says.
@@ -459,12 +693,12 @@ func obtain(res *hx.Result, pv prov, specs []spec, words [][]byte) (*dawg.Dawg, 
 		tgt = new(dawg.Dawg)
 	case 's':
 		tgt = src
-	case 'n', 'z', 'i':
+	case 'n', 'z', 'i', 't', 'm':
 		if tgt, err = build(pv.tgt, pv.prev); err != nil {
 			return nil, "new-error"
 		}
 	case 'd':
-		p0, e := dawg.New(pv.prev)
+		p0, e := dawg.New(copies(pv.prev))
 		if e != nil {
 			return nil, "new-error"
 		}
@@ -489,30 +723,61 @@ func obtain(res *hx.Result, pv prov, specs []spec, words [][]byte) (*dawg.Dawg, 
 }
 
 func exec(line string) hx.Result {
-	pv, specs, words := parseCase(line)
+	pv, specs, words, bombAt := parseCase(line)
 	var res hx.Result
 	d, obs := obtain(&res, pv, specs, words)
 	if d == nil {
 		res.Obs = obs
 		return res
 	}
+	// guard: whatever the way it was obtained, the object is a well-formed Dawg of the words
 	before := d.VerifDump()
 	if msg := wellFormed(before); msg != "" {
 		res.Viol = append(res.Viol, hx.Fail("C13:dawg-wellformed", "the Dawg (provenance %q) is not well-formed: %s", pv.String(), msg))
+	} else if lang := language(before, len(words)); !reflect.DeepEqual(lang, copies(words)) && (len(lang) > 0 || len(words) > 0) {
+		res.Viol = append(res.Viol, hx.Fail("C13:dawg-language", "the Dawg (provenance %q) does not hold the words of the case (it holds %d words)", pv.String(), len(lang)))
 	}
-	ls, srch := newSearchers(specs)
+	e := &env{d: d, words: words}
+	if bombAt > 0 {
+		// a Search that ends in a panic of a user-defined searcher, recovered by the caller; the
+		// library searchers of that run are dropped (they were left in the middle of a walk)
+		_, srch := newSearchers(specs, nil)
+		x := &bomb{k: bombAt}
+		if bombAt%2 == 0 {
+			srch = append([]dawg.Searcher{x}, srch...)
+		} else {
+			srch = append(srch, x)
+		}
+		func() {
+			defer func() { recover() }()
+			d.Search(srch...)
+		}()
+	}
+	ls, srch := newSearchers(specs, e)
 	kinds := ""
+	mods := ""
 	for _, sp := range specs {
 		kinds += string(sp.kind)
 	}
+	for _, m := range "nuwx" {
+		for _, sp := range specs {
+			if sp.mod == byte(m) {
+				mods += string(m)
+				break
+			}
+		}
+	}
 	s0, c0 := states(ls, live.proj), states(ls, live.strict)
 	w1, i1 := d.Search(srch...)
-	r1 := solnString(w1, i1)
+	r1 := e.hold("the first Search", w1, i1)
+	settle(&res, ls, "first Search", len(w1))
 	s1, c1 := states(ls, live.proj), states(ls, live.strict)
 	w2, i2 := d.Search(srch...)
-	r2 := solnString(w2, i2)
+	r2 := e.hold("the second Search", w2, i2)
+	settle(&res, ls, "second Search", len(w2))
 	s2, c2 := states(ls, live.proj), states(ls, live.strict)
 	res.Obs = fmt.Sprintf("s0=%s r1=%s s1=%s r2=%s s2=%s ## c0=%s c1=%s c2=%s", s0, r1, s1, r2, s2, c0, c1, c2)
+	e.revalidate("the second Search")
 
 	// brute-force oracle on the word list
 	want, hits := bruteForce(specs, words)
@@ -525,11 +790,8 @@ func exec(line string) hx.Result {
 	if s1 != s0 || s2 != s0 {
 		res.Viol = append(res.Viol, hx.Fail("C13:searcher-state", "searchers not back in their initial state: before %s, after first %s, after second %s", s0, s1, s2))
 	}
-	if !reflect.DeepEqual(before, d.VerifDump()) {
-		res.Viol = append(res.Viol, hx.Fail("C13:dawg-changed", "Search changed the Dawg"))
-	}
 	// the same searcher objects, as the two runs left them, on another Dawg (the Dawg of the
-	// other word list of the provenance, or of the words reversed in order of length): they are
+	// other word list of the provenance, or of the words without their last letters): they are
 	// back in their initial state, so the answer is again the brute-force one
 	other := pv.prev
 	if len(other) == 0 {
@@ -540,19 +802,63 @@ func exec(line string) hx.Result {
 		}
 		other = sortDedupe(other)
 	}
-	if od, err := dawg.New(other); err == nil {
+	if od, err := dawg.New(copies(other)); err == nil {
+		saved := e.d
+		e.d, e.words = od, other // nested searches of this run go to the second Dawg
 		w3, i3 := od.Search(srch...)
-		r3 := solnString(w3, i3)
+		r3 := e.hold("the Search on a second Dawg", w3, i3)
+		e.d, e.words = saved, words
+		settle(&res, ls, "Search on a second Dawg", len(w3))
 		if want3, _ := bruteForce(specs, other); r3 != want3 {
 			res.Viol = append(res.Viol, hx.Fail("C13:searchers-on-another-dawg", "the searcher objects used on a second Dawg (words %s): Search returned %s, the matching words with ranks are %s", solnString(other, make([]int, len(other))), r3, want3))
 		}
 	}
-	// the lists returned by the first run are still what they were (not aliased by later calls)
-	if again := solnString(w1, i1); again != r1 {
-		res.Viol = append(res.Viol, hx.Fail("C13:result-aliased", "the lists returned by the first Search changed during later calls: %s, now %s", r1, again))
+	e.revalidate("the Search on a second Dawg")
+
+	// a sequence of further queries on the same Dawg with result sizes going down and up, every
+	// result held; after each call the earlier results are read again, then the caller scribbles
+	// over the oldest one (the library must not depend on slices it has handed out)
+	maxW := 0
+	for _, w := range words {
+		if len(w) > maxW {
+			maxW = len(w)
+		}
 	}
-	if again := solnString(w2, i2); again != r2 {
-		res.Viol = append(res.Viol, hx.Fail("C13:result-aliased", "the lists returned by the second Search changed during later calls: %s, now %s", r2, again))
+	var lens []int
+	for _, l := range []int{maxW, 0, (maxW + 1) / 2, 1, maxW + 1, 2} {
+		dup := false
+		for _, m := range lens {
+			dup = dup || m == l
+		}
+		if !dup {
+			lens = append(lens, l)
+		}
+	}
+	for k, l := range lens {
+		what := fmt.Sprintf("query %d of the sequence", k+1)
+		e.blankQuery(what, l)
+		e.revalidate(what)
+		for _, h := range e.held {
+			if !h.dead {
+				scribble(h.w...)
+				for j := range h.i {
+					h.i[j] = -1
+				}
+				h.dead = true
+				break
+			}
+		}
+	}
+	{
+		_, fresh := newSearchers(specs, nil)
+		w4, i4 := d.Search(fresh...)
+		if r4 := solnString(w4, i4); r4 != want {
+			res.Viol = append(res.Viol, hx.Fail("C13:after-sequence", "Search with fresh searchers after the query sequence returned %s, the matching words with ranks are %s", r4, want))
+		}
+	}
+	res.Viol = append(res.Viol, e.viol...)
+	if !reflect.DeepEqual(before, d.VerifDump()) {
+		res.Viol = append(res.Viol, hx.Fail("C13:dawg-changed", "the searches changed the Dawg"))
 	}
 	// non-triviality (DESIGN 4.4): a shared node or a word that is a proper prefix of another,
 	// and at least one word returned
@@ -573,6 +879,8 @@ func exec(line string) hx.Result {
 		fmt.Sprintf("words<=%d", bucket(len(words))),
 		fmt.Sprintf("hits<=%d", bucket(hits)),
 		"provenance:" + string([]byte{pv.src, pv.via, pv.tgt}),
+		"carriers:" + mods,
+		fmt.Sprintf("recovered-panic:%v", bombAt > 0),
 		fmt.Sprintf("shared:%v prefix:%v", shared, pp),
 	}
 	if longA {
@@ -680,8 +988,18 @@ func outsideLetter(r *hx.Rng, alpha []byte) byte {
 	}
 }
 
+// bytes at the edges of the ranges a byte-handling fast path may single out
+var edgeBytes = []byte{0x00, 0x01, 0x7f, 0x80, 0x81, 0xfe, 0xff, ' ', '\n', '0', '9', ',', ';', ':', '-', '?', '@', 'A', 'Z', '[', '`', 'a', 'z', '{'}
+
 func randAlphabet(r *hx.Rng) []byte {
-	switch r.Intn(10) {
+	switch r.Intn(11) {
+	case 10:
+		k := r.Range(2, 5)
+		var a []byte
+		for _, j := range r.Perm(len(edgeBytes))[:k] {
+			a = append(a, edgeBytes[j])
+		}
+		return a
 	case 6, 7, 8:
 		return congruentAlphabet(r)
 	case 9: // any bytes
@@ -874,9 +1192,9 @@ func randSpec(r *hx.Rng, alpha []byte, w []byte, blank byte) spec {
 
 // ---------------------------------------------------------------- provenance
 
-var provSrcs = []byte("nzir")
+var provSrcs = []byte("nzirtTmM")
 var provVias = []byte("ge2")
-var provTgts = []byte("fnzids")
+var provTgts = []byte("fnzidstm")
 
 // the other word list (what the decoded-into value held before / what a reused Builder built
 // first): shorter words, longer words, unrelated words, the same words, nothing, only the empty
@@ -931,11 +1249,31 @@ func prevWords(r *hx.Rng, alpha []byte, words [][]byte, kind int) [][]byte {
 	return ws
 }
 
+// carriers: which Go objects carry the descriptions (library searcher, user-defined wrapper, with
+// nested searches, independent user implementation, library searcher after a manual walk), and
+// now and then a recovered panic of a user-defined searcher before the observed runs
+func carriers(r *hx.Rng, specs []spec, p int) []spec {
+	out := append([]spec{}, specs...)
+	for i := range out {
+		if r.Chance(1, p) {
+			out[i].mod = "wnux"[r.Intn(4)]
+		}
+	}
+	if r.Chance(1, 3*p) {
+		k := r.Range(1, 12)
+		if r.Bool() {
+			k = []int{15, 16, 17, 31, 32, 33, 63, 64, 65, 127, 128, 129, 255}[r.Intn(13)]
+		}
+		out = append(out, spec{kind: 'X', body: nil, blank: byte(k)})
+	}
+	return out
+}
+
 func randProv(r *hx.Rng, alpha []byte, words [][]byte) prov {
-	pv := prov{src: provSrcs[r.Intn(4)], via: '-', tgt: '-'}
+	pv := prov{src: provSrcs[r.Intn(len(provSrcs))], via: '-', tgt: '-'}
 	if r.Chance(2, 3) {
 		pv.via = provVias[r.Intn(3)]
-		pv.tgt = provTgts[r.Intn(6)]
+		pv.tgt = provTgts[r.Intn(len(provTgts))]
 	}
 	if pv.src == 'r' || (pv.via != '-' && pv.tgt != 'f' && pv.tgt != 's') {
 		pv.prev = prevWords(r, alpha, words, r.Intn(6))
@@ -1042,8 +1380,8 @@ func gen(g *hx.Gen) {
 		}
 		return sortDedupe(ws)
 	}
-	P := func(p string, blank byte) spec { return spec{'P', []byte(p), blank} }
-	A := func(a string, blank byte) spec { return spec{'A', []byte(a), blank} }
+	P := func(p string, blank byte) spec { return spec{kind: 'P', body: []byte(p), blank: blank} }
+	A := func(a string, blank byte) spec { return spec{kind: 'A', body: []byte(a), blank: blank} }
 	do := func(specs []spec, words [][]byte) { g.Emit(caseLine(plain, specs, words)) }
 	doP := func(pv prov, specs []spec, words [][]byte) { g.Emit(caseLine(pv, specs, words)) }
 
@@ -1103,8 +1441,8 @@ func gen(g *hx.Gen) {
 				}
 			}
 			for _, p := range pats {
-				do([]spec{{'P', p, blank}}, ws)
-				do([]spec{{'A', p, blank}}, ws)
+				do([]spec{{kind: 'P', body: p, blank: blank}}, ws)
+				do([]spec{{kind: 'A', body: p, blank: blank}}, ws)
 			}
 		}
 		g.Exhaustive(fmt.Sprintf("all subsets of the words of length <= %d over %q x every pattern and every anagram of length <= %d over %q with blank %q",
@@ -1146,9 +1484,9 @@ func gen(g *hx.Gen) {
 			}
 			for _, p := range pats {
 				for _, q := range pats {
-					do([]spec{{'P', p, blank}, {'A', q, blank}}, ws)
-					do([]spec{{'A', p, blank}, {'A', q, blank}}, ws)
-					do([]spec{{'A', p, blank}, {'P', q, blank}}, ws)
+					do([]spec{{kind: 'P', body: p, blank: blank}, {kind: 'A', body: q, blank: blank}}, ws)
+					do([]spec{{kind: 'A', body: p, blank: blank}, {kind: 'A', body: q, blank: blank}}, ws)
+					do([]spec{{kind: 'A', body: p, blank: blank}, {kind: 'P', body: q, blank: blank}}, ws)
 				}
 			}
 		}
@@ -1186,6 +1524,18 @@ func gen(g *hx.Gen) {
 		var base []byte
 		if len(words) > 0 {
 			base = words[r.Intn(len(words))]
+			switch r.Intn(8) { // the implementation's own extremes: deepest walk, rank 0, last rank
+			case 0, 1:
+				for _, w := range words {
+					if len(w) > len(base) {
+						base = w
+					}
+				}
+			case 2:
+				base = words[0]
+			case 3:
+				base = words[len(words)-1]
+			}
 		}
 		specs := make([]spec, ns)
 		for k := range specs {
@@ -1198,6 +1548,7 @@ func gen(g *hx.Gen) {
 			}
 			specs[k] = randSpec(r, alpha, base, bl)
 		}
+		specs = carriers(r, specs, 4)
 		if r.Chance(1, 3) {
 			doP(randProv(r, alpha, words), specs, words)
 		} else {
@@ -1231,6 +1582,9 @@ func gen(g *hx.Gen) {
 		if r.Chance(1, 4) {
 			specs = append(specs, randSpec(r, alpha, base, blank))
 		}
+		if r.Bool() {
+			specs = carriers(r, specs, 2)
+		}
 		k := r.Intn(6)
 		for _, src := range provSrcs {
 			pv := prov{src: src, via: '-', tgt: '-'}
@@ -1242,7 +1596,7 @@ func gen(g *hx.Gen) {
 		}
 		for _, via := range provVias {
 			for _, tgt := range provTgts {
-				pv := prov{src: provSrcs[r.Intn(3)], via: via, tgt: tgt}
+				pv := prov{src: provSrcs[r.Intn(len(provSrcs))], via: via, tgt: tgt}
 				if tgt != 'f' && tgt != 's' {
 					pv.prev = prevWords(r, alpha, words, k)
 					k++
@@ -1291,6 +1645,21 @@ func gen(g *hx.Gen) {
 			if r.Chance(1, 3) {
 				specs = append(specs, deepSpec(r, alpha, words[r.Intn(len(words))], blank))
 			}
+			switch r.Intn(12) {
+			case 0, 4: // nothing but blanks, as long as the words
+				specs[0].body = bytes.Repeat([]byte{blank}, m)
+			case 1, 5: // mostly blanks
+				for j := range specs[0].body {
+					if r.Chance(7, 8) {
+						specs[0].body[j] = blank
+					}
+				}
+			case 2: // a short query against long words
+				specs[0].body = append([]byte{}, specs[0].body[:r.Intn(3)]...)
+			case 3: // a long query against a few short words
+				words = sortDedupe([][]byte{randWord(r, alpha, r.Range(0, 3)), randWord(r, alpha, r.Range(1, 3)), append([]byte{}, base[:r.Range(1, 2)]...)})
+			}
+			specs = carriers(r, specs, 4)
 			if r.Chance(1, 2) {
 				doP(randProv(r, alpha, words), specs, words)
 			} else {
@@ -1336,7 +1705,7 @@ func gen(g *hx.Gen) {
 				}
 				specs[k] = randSpec(r, alpha, base, blank)
 			}
-			do(specs, words)
+			do(carriers(r, specs, 6), words)
 		}
 	}
 
@@ -1407,12 +1776,29 @@ func gen(g *hx.Gen) {
 					body[r.Intn(len(body))] = blank
 				}
 			}
-			specs := []spec{{kind, body, blank}}
+			switch r.Intn(8) {
+			case 0: // a tiny query against many words
+				body = append([]byte{}, body[:r.Intn(3)]...)
+			case 1: // longer than every word
+				body = append(body, bytes.Repeat([]byte{blank}, []int{1, 2, 9, 60}[r.Intn(4)])...)
+			case 2: // exactly one stored word: the first, the last, the middle one, or the word
+				// right after a word that fails at its last letter
+				j := []int{0, len(words) - 1, len(words) / 2, r.Intn(len(words))}[r.Intn(4)]
+				body = append([]byte{}, words[j]...)
+			}
+			specs := carriers(r, []spec{{kind: kind, body: body, blank: blank}}, 4)
 			if r.Chance(1, 2) {
 				doP(randProv(r, alpha, words), specs, words)
 			} else {
 				do(specs, words)
 			}
+			// the same many words against a query of 0, 1 or 2 letters
+			tiny := randWord(r, append(append([]byte{}, alpha...), blank, blank), r.Intn(3))
+			tk := byte('P')
+			if r.Chance(1, 3) {
+				tk = 'A'
+			}
+			do([]spec{{kind: tk, body: tiny, blank: blank}}, words)
 		}
 	}
 
@@ -1437,8 +1823,8 @@ func gen(g *hx.Gen) {
 			blank := randBlank(r, alpha)
 			specs := []spec{randSpec(r, alpha, words[r.Intn(len(words))], blank)}
 			doP(randProv(r, alpha, words), specs, words)
-			doP(plain, []spec{{'P', []byte{hub, blank}, blank}}, words)
-			doP(randProv(r, alpha, words), []spec{{'A', []byte{blank, hub}, blank}}, words)
+			doP(plain, []spec{{kind: 'P', body: []byte{hub, blank}, blank: blank}}, words)
+			doP(randProv(r, alpha, words), []spec{{kind: 'A', body: []byte{blank, hub}, blank: blank}}, words)
 		}
 	}
 	// long words with repeated letters and anagrams of more than 12 letters
